@@ -341,6 +341,10 @@ def gen_drbg(ctx):
     heavy.append(line([ent(), "f", ent(32), ent()], [1] * 255 + [2, 3, 4, 5]))
     heavy.append(line([ent(), "f", "f"], [1] * 254 + [40, 33, 7, 7, 7]))          # then exhausted
     ctx.count("drbg.fail.reseed", 2)
+    # the reseed point falls INSIDE a request of more than 65536 bytes: generate call 256 is its first
+    # chunk, the reseed must happen before its second chunk (the test sits inside the chunk loop)
+    heavy.append(line([ent(), ent(32), ent()], [1] * 255 + [65537, 9]))
+    ctx.count("drbg.reseed-inside-multichunk-request")
     if not ctx.quick:
         # reseed needed in the middle of a multi-chunk request, entropy fails there
         heavy.append(line([ent(), "f", ent()], [1] * 255 + [65537 + 10, 9]))
